@@ -260,10 +260,8 @@ for _nr in (10, 12, 14):
     def _dec(vc, _nr=_nr):
         """AES.decrypt(block) == EqInvCipher(block, decryption round keys) for all round keys and blocks"""
         _block_proof(vc, False, _nr)
-    proof("C16/AES.encrypt[rounds=%d]" % _nr, functions=[(MOD, "AES.encrypt")], family=_fam_nr(_nr),
-          thorough_only=_nr != 10)(_enc)
-    proof("C16/AES.decrypt[rounds=%d]" % _nr, functions=[(MOD, "AES.decrypt")], family=_fam_nr(_nr),
-          thorough_only=_nr != 10)(_dec)
+    proof("C16/AES.encrypt[rounds=%d]" % _nr, functions=[(MOD, "AES.encrypt")], family=_fam_nr(_nr))(_enc)
+    proof("C16/AES.decrypt[rounds=%d]" % _nr, functions=[(MOD, "AES.decrypt")], family=_fam_nr(_nr))(_dec)
 
 
 # ---------------------------------------------------------------------------------------
@@ -317,8 +315,7 @@ for _k in (16, 24, 32, 0, 15, 17, 33):
         """key schedule: _Ke = KeyExpansion(key); _Kd = keys of the equivalent inverse cipher; other key
         lengths are rejected with ValueError"""
         _init_proof(vc, _k)
-    proof("C16/AES.__init__[keylen=%d]" % _k, functions=[(MOD, "AES.__init__")], family=_fam_k(_k),
-          thorough_only=_k in (24, 32))(_ini)
+    proof("C16/AES.__init__[keylen=%d]" % _k, functions=[(MOD, "AES.__init__")], family=_fam_k(_k))(_ini)
 
 
 # ---------------------------------------------------------------------------------------
